@@ -191,7 +191,7 @@ class BinderModel:
             keywords={k: (True, Opaque(f"kw:{k}")) for k in sorted(kws)},
             star_kwargs=Opaque("star_kwargs") if sk else None,
             kwargs_required=bool(sk),
-            pos_or_keyword_params=frozenset(),
+            pos_or_keyword_params=frozenset(), min_star_args=0,
             ellipsis=False,
             param_spec=None,
         )
